@@ -133,9 +133,12 @@ func Bulk(ctx context.Context, opts *BulkOptions) <-chan *BulkResponse {
 		for {
 			seq := atomic.AddInt64(&seq, 1)
 			var req BulkRequest
+			simYield(opts, "decode", seq)
 			err := dec.Decode(&req)
 			if err != nil {
+				simYield(opts, "drain", seq)
 				wg.Wait()
+				simYield(opts, "final", seq)
 				res := &BulkResponse{
 					ReqID:   req.ReqID,
 					SeqID:   seq,
@@ -149,6 +152,7 @@ func Bulk(ctx context.Context, opts *BulkOptions) <-chan *BulkResponse {
 			}
 			wg.Add(1)
 			go func() {
+				simYield(opts, "work", seq)
 				resCh <- processRequest(ctx, req, seq, opts)
 				wg.Done()
 			}()
@@ -158,6 +162,7 @@ func Bulk(ctx context.Context, opts *BulkOptions) <-chan *BulkResponse {
 }
 
 func processRequest(ctx context.Context, req BulkRequest, seq int64, bulkOpts *BulkOptions) *BulkResponse { //nolint:gocyclo
+	defer simYield(bulkOpts, "processed", seq)
 	marshal := json.Marshal
 	if req.Indent {
 		marshal = func(i interface{}) ([]byte, error) {
